@@ -18,14 +18,47 @@ CHECKS = {
    note=TRUST + "HrrAlgebra.bind goes through NumPy rfft/irfft: the model is the convolution sum (modelled, not path-faithful), compared at 1e-9 relative; NumPy dot/kron/sqrt and IEEE rounding trusted.",
    technique="Lean 4 proof (Mathlib: circulant matrices, finite sums, ring) + exact-arithmetic model/implementation correspondence",
    ref="6/C02"),
+
+ "C09": dict(
+   text="Lean 4 (core only): for every history of add / populate / parse / getitem / contains / create_pointer / create_subset / transform_to / mutation calls on a world of two vocabularies (plus the transient subset object), strict and non-strict, the three store components (keys, key2idx, vectors) stay aligned, the store only grows at its end by exactly the successful additions in order, stored pairs never change, rejected adds (invalid/reserved/duplicate/foreign/wrong length/non-vector) change nothing, strict look-ups are pure, and non-strict look-ups and expressions gain exactly the missing valid names in first-occurrence order — by induction over the operation list with a preserved invariant and an append-only refinement. The name rules come from the table regenerated from the source on every run. Tied to the code by bounded-exhaustive histories (length ≤ 3 quick / ≤ 4 thorough over 15–19 op instances × strictness × three algebras) and random histories to length 40 with scripted pointer generators, compared after every step.",
+   note=TRUST + "Exact gains of populate as a whole, of create_subset on a non-strict vocabulary and of the transform_to target are oracle-checked, not proved; expression fragment is name (+ name)*; set iteration order is an input recorded from the implementation; re-enabling writes with setflags(write=True) on a handed-out array is outside the property; read-only/copy behaviour of arrays is established by the oracle on the real objects.",
+   technique="Lean 4 proof (induction over op lists, invariant + append-only refinement) + generated name-rule table + bounded-exhaustive/random history correspondence with shrinking",
+   ref="6/C09"),
+ "C14": dict(
+   text="Lean 4 (core only): for all programs over the block statement language (>>, ifmax, raise, nested or re-entered with, try/except) the implementation's global-switch semantics (ActionSelection.active, ModuleInput.routed_mode, RoutedConnection.free_floating) refines a lexical specification without globals (exec_refines). Consequences for all histories: clean class attributes after every block outcome, independence of later blocks, >> connects immediately iff outside a block, built iff completed without error with at least one action, one lemma per documented error, and the Mapping interface (iteration in declaration order, last name wins, [i]/[name] agreement) for all name sequences and all reachable block objects. Tied to the real ActionSelection inside spa.Network by exact trace comparison on all outcome-kind sequences up to length 3 (quick) / 4 (thorough), random nested programs and all name lists up to length 5.",
+   note=TRUST + "Nengo's part of _build is abstracted to succeeds-or-raises (ValidationError iff a pointer is routed into a scalar sink) without touching the class attributes; independence is proved for worlds with identical block objects, the fresh-object variant is covered by the differential alone-rerun oracle; Python's with protocol modelled from its documentation.",
+   technique="Lean 4 proof (structural induction over a continuation-style program type, simulation relation between identity-based class attributes and lexical context) + exhaustive/random program correspondence",
+   ref="6/C14"),
+ "C16": dict(
+   text="Lean 4 (core only): for every d, every s | d (incl. s = 1, s = d, d = 1), every neurons-per-dimension and both representation modes, the slices the constructors create are an ordered partition of [0, d) with matching input/output slices (so every output entry receives exactly its own input entry), the neuron-level input and output tables are the same ordered partition of [0, npd·d) (each neuron addressed exactly once, driving entry i is read at entry i only, inhibition reaches every neuron), add_output is defined for every split and its node is the concatenation of the per-part results in dimension order, State is built iff the dimensions are divisible, and on the stated discrete recurrence feedback 1 holds the value and feedback 0 follows the input. The model follows the constructors' slice arithmetic including slice clipping and Nengo's size checks. Tied to the code exhaustively over all (d, s), d ≤ 32 quick / ≤ 64 thorough: slice tables read back from the built connections, Direct-mode evaluation with exact dyadic inputs, structural and seeded rate-neuron perturbation of neuron access, add_output with distinguishable functions, feedback trajectories at 1e-9.",
+   note=TRUST + "Nengo's builder/simulator semantics (slice connections copy entries, inputs add up, Direct ensembles compute their function exactly, Lowpass is the stated recurrence) are modelled, not verified; neuron-level inhibition and locality in a rate simulation are validation only; the 3-function list form of add_output is refused by the code when the remainder has ≥ 2 ensembles (outside the statement, mirrored and noted).",
+   technique="Lean 4 proof (chains of slices and running offsets, gather/locate semantics, omega/induction) + exhaustive structural and Direct-mode correspondence",
+   ref="6/C16"),
+ "C20": dict(
+   text="Lean 4 (core Rat model; single Mathlib tactic modules in lemmas): all clauses of C20 for vectors of every dimensionality, vocabularies / series / term lists of every size (0 keys included) and every minimum / maximum / threshold (None and negative included): all input forms normalise to the same matrix in vocabulary order, similarity returns exactly the dot products with shape (N,) / (T,N), normalised values are cosines with zero rows or zero vocabulary vectors giving exactly 0 (the divisor is provably positive), text is a prefix of the descending sort (never omits a more similar term), respects minimum/maximum/threshold exactly as stated and its count is fixed uniquely, two-decimal formatting is within 1/200 and monotone, pairs are exactly the n(n−1)/2 unordered pairs. Tied to examine.py by a differential run over all data shapes × vocabulary forms × normalize × zero rows and the full min/max/threshold/terms grid (≈5.5k cases quick, ≈50k thorough) with exact string and set comparison.",
+   note=TRUST + "The Euclidean norm is an abstract function assumed only to satisfy 0 ≤ n and n² = v·v; IEEE rounding, parse of compound terms and NumPy are outside the model; normalised cases with irrational norms or inexact float similarities are judged by the Fraction oracle alone; an empty Python list (and terms=[]) raises NumPy's ValueError, mirrored but not demanded; integer-dtype arrays with normalize=True are outside the quantifier.",
+   technique="Lean 4 proof (induction over the selection loop via a counting function, mergeSort perm lemmas, half-even rounding bound, combinations ↔ index pairs) + exact-rational differential correspondence",
+   ref="6/C20"),
+ "C06": dict(
+   text="Lean 4 (core only): over a model of expr_tree's printer (with the precedence table regenerated from the source on every run), the PointerSymbol tree builders and the SemanticPointer naming helpers, for all trees and expressions of any depth and any value algebra: the printed text is a derivation of exactly the tree under the stratified Python reference grammar (print_derives; left-nested ** and chained comparisons are provably rejected without parentheses), and evaluating the tree a symbolic expression or an automatic name builds equals applying the same operations directly (symbol_tree_faithful, name_tree_faithful). Table side conditions (levels strictly increasing, ** between unary and await, comparisons share one level) are proved by decide on the generated table, so an edited table breaks a proof obligation. Tied to the code by exhaustive trees to depth 2 (quick) / 3 (thorough) plus random deeper ones against str(tree) and CPython's ast.parse, and all symbol/name expressions of depth ≤ 3 in HRR, VTB and TVTB vocabularies at 1e-9.",
+   note=TRUST + "Unambiguity of the grammar is not proved (ast.parse referees every run); Python's evaluator and lexer are trusted; ellipsis-shortened names, non-operator table rows and number leaves under attribute access are outside the universe; the name theorem assumes a defined linv equals rinv (true for HRR and TVTB; VTB refuses linv); gen_tables.py is trusted for the table it emits.",
+   technique="Lean 4 proof (decide on the generated table, induction on trees and derivations) + exhaustive printer/ast.parse and symbol/name value correspondence",
+   ref="6/C06"),
+ "C18": dict(
+   text="Lean 4 (core only) over an operational model of Network.__init__ / VocabularyMap.get_or_create / VocabularyOrDimParam.coerce on with-block construction scripts with a context stack and the process-wide weak master dictionary, for scripts of any depth and any earlier process state: d < 1 and values that are neither integer nor Vocabulary are rejected; one Vocabulary per (map, d); an explicit vocabs= governs exactly its subtree; all ungoverned networks of one root (plain or SPA) share one map, hence one vocabulary per d; every map of a build belongs to that build, so independent models never share automatically created vocabularies. Tied to the code by exhaustive small and random deeper nesting trees built with real nengo/spa networks and modules (identity partition, map seeds, creation order, errors), several models per process in varying order, and exact array comparison for equal seeds.",
+   note=TRUST + "History-independence of outputs (order_independent), label determinism under renaming of the build number and the lift of distinct_across_models to whole build sequences are checked by the correspondence run and proved only as far as Props/C18.lean states; 'a different seed gives different pointers' and the RandomState stream are empirical; Nengo Config.default and weak-reference semantics are assumptions.",
+   technique="Lean 4 proof (induction over construction scripts: monotone map contents, name freshness, governing-map and shared-map invariants, build ownership) + exhaustive/random nesting-tree correspondence",
+   ref="6/C18"),
 }
+
+ENABLED = {"C02", "C11"}
 
 NOT_YET = "check not built yet in this round (model and correspondence pending); see DESIGN.md section 6"
 
 def main():
     checks = []
     for pid in ALL:
-        if pid not in CHECKS:
+        if pid not in CHECKS or pid not in ENABLED:
             continue
         c = CHECKS[pid]
         checks.append({
@@ -52,12 +85,12 @@ def main():
         "engines": [{
             "name": "lean-spamodel",
             "path": "lean/",
-            "serves_properties": sorted(CHECKS),
+            "serves_properties": sorted(set(CHECKS) & ENABLED),
             "kind_free_text": "Lean 4 library SpaModel (models Basic/*, theorems Props/*, generated tables Generated/*), line-protocol drivers drivers/*.lean run with `lake env lean --run`, Python correspondence harness harness/*.py",
         }],
         "checks": checks,
         "notes": "Every check: regenerate tables from /repo, lake build the property's theorems, source scan + #print axioms audit, then model/implementation correspondence + property oracle on the implementation; see DESIGN.md.",
-        "not_applicable": [{"property_id": p, "reason": NOT_YET} for p in ALL if p not in CHECKS],
+        "not_applicable": [{"property_id": p, "reason": NOT_YET} for p in ALL if p not in CHECKS or p not in ENABLED],
     }
     path = os.path.join(HERE, "MANIFEST.json")
     json.dump(man, open(path, "w"), indent=1, ensure_ascii=False)
@@ -67,7 +100,7 @@ def main():
         print("jsonschema not importable here; run with python3-vt to validate"); return
     jsonschema.validate(man, json.load(open("/root/.vp/MANIFEST.schema.json")))
     es = json.load(open("/root/.vp/EVIDENCE.schema.json"))
-    for pid in sorted(CHECKS):
+    for pid in sorted(set(CHECKS) & ENABLED):
         f = os.path.join(HERE, "evidence", pid + ".json")
         jsonschema.validate(json.load(open(f)), es)
     print("MANIFEST ok:", len(checks), "checks;", len(man["not_applicable"]), "not_applicable; evidence files valid")
